@@ -207,13 +207,11 @@ def solveTyped {n p m : Nat} (s : Solver K n p m) (perm : Vector (Fin (n + p + m
     let info0 : Info K :=
       { s.info with status := .unsolved, iter := 0, regLimit := st.regLowerLimit, factorRetires := 0, noPrimalUpdate := 0,
                     noDualUpdate := 0, mu := 0, primalStep := 0, dualStep := 0, rho := st.rhoInit, delta := st.deltaInit }
-    let (w0, kkt0) : Work K n p m × KKT K n p m :=
-      if !s.kktInitState then
-        let w1 : Work K n p m :=
-          { s.w with s := Vec.const m 1, s_lb := d.lb.headUpd s.w.s_lb fun _ => 1, s_ub := d.ub.headUpd s.w.s_ub fun _ => 1,
-                     z := Vec.const m 1, z_lb := d.lb.headUpd s.w.z_lb fun _ => 1, z_ub := d.ub.headUpd s.w.z_ub fun _ => 1 }
-        (w1, kktScal e s.kkt w1 info0.rho info0.delta)
-      else (s.w, s.kkt)
+    -- slacks and multipliers always start at one (they feed update_scalings when the first factorisation is retried)
+    let w0 : Work K n p m :=
+      { s.w with s := Vec.const m 1, s_lb := d.lb.headUpd s.w.s_lb fun _ => 1, s_ub := d.ub.headUpd s.w.s_ub fun _ => 1,
+                 z := Vec.const m 1, z_lb := d.lb.headUpd s.w.z_lb fun _ => 1, z_ub := d.ub.headUpd s.w.z_ub fun _ => 1 }
+    let kkt0 : KKT K n p m := if !s.kktInitState then kktScal e s.kkt w0 info0.rho info0.delta else s.kkt
     let il := initLoopG e.st e.cs (realOps e) s.refineOn 0 (w0, kkt0) info0
     let refineOn := il.1
     let info1 := il.2.2.2.1
